@@ -3,6 +3,7 @@ pub struct Proxy { pub x: u8 }
 #[verifier::external_body] fn shim_clone_opt_name(x: &Option<ClusterName>) -> (r: Option<ClusterName>) ensures r == *x { unimplemented!() }
 pub broadcast axiom fn axiom_string_key() ensures #[trigger] vstd::std_specs::hash::obeys_key_model::<String>();
 impl Clone for ProxyResource { #[verifier::external_body] fn clone(&self) -> (r: Self) ensures r == *self { unimplemented!() } }
+//@@FREE_SPEC@@
 impl ClusterStore {
 //@@SET_EPOCH@@
 }
@@ -29,8 +30,7 @@ impl<'a> MetaStoreQuery<'a> {
 //@@UPDATE_STRUCT@@
 impl<'a> MetaStoreUpdate<'a> {
 //@@TAKEOVER_CONTRACT@@
-    // out of reach (HashMap<String,Vec<String>> + min_by): assumed contract
+    // proved in unit new_free_proxy on the real text; the contract text is imported from that unit
     #[verifier::external_body]
-    fn generate_new_free_proxy(&self, failed_proxy_address: String) -> (r: Result<ProxyResource, MetaStoreError>)
-        ensures r matches Ok(p) ==> old(self.store).all_proxies@.contains_key(p.proxy_address) && old(self.store).all_proxies@[p.proxy_address] == p
+//@@NEW_FREE_CONTRACT@@
     { unimplemented!() }
